@@ -9,5 +9,6 @@ import SarpyModel.Props.C10
 import SarpyModel.Props.C09
 import SarpyModel.Props.C08
 import SarpyModel.Props.C12
+import SarpyModel.Props.C17
 import SarpyModel.Gen.NitfTables
 import SarpyModel.Drivers
